@@ -47,16 +47,17 @@ OVERLOADED = [('req',), ('req',), ('timeout', 0), ('timeout', 1)]
 def e_configs(ctx):
     q = [
         ('hc-convict', dict(HC), 8),
-        ('hc-replace-on-failure', dict(HC, convict=False), 8),
-        ('hc-overloaded', dict(HC, prefix=OVERLOADED, n_req=5, max_in_flight=5, convict=False), 6),
+        ('hc-replace-on-failure', dict(HC, convict=False), 7),
+        ('hc-overloaded', dict(HC, prefix=OVERLOADED, n_req=5, max_in_flight=5, convict=False), 5),
         ('hc-tight', dict(HC, max_in_flight=3, n_req=4, max_defunct=0, max_fail=0), 8),
-        ('v2-pool', dict(LEG), 7),
+        ('v2-pool', dict(LEG), 6),
         ('v2-pool-convict', dict(LEG, convict=True, max_defunct=1), 6),
         # thresholds 1/2: a connection with a request in flight is set aside (trashed) when the load drops
         ('v2-trash', dict(LEG, min_reqs=1, max_reqs=2, max_in_flight=3, n_req=3, max_defunct=0, max_fail=0), 8),
     ]
     if ctx.thorough:
-        q = [(n, dict(p, drain_orders=('resp', 'timeout'), task_window=2), d + 2) for n, p, d in q]
+        q = [(n, dict(p, drain_orders=('resp', 'timeout'), task_window=2), d + (2 if n in ('hc-convict', 'hc-tight', 'v2-trash', 'v2-pool-convict') else 3))
+             for n, p, d in q]
     return q
 
 
@@ -70,7 +71,8 @@ def s_configs(ctx):
         # a borrow, the return of an answered request and the shutdown overlap
         ('hc-borrow-return-shutdown', dict(hc, stage=[('req',)], threads=['client', 'reactor', 'shutdown']), b),
         # two clients compete for the last slot while the reactor frees one
-        ('hc-last-slot', dict(hc, max_in_flight=3, stage=[('req',), ('req',)], threads=['client', 'client', 'reactor']), b),
+        ('hc-last-slot', dict(hc, max_in_flight=3, stage=[('req',), ('req',)],
+                              threads=['client', 'client', 'reactor'] if ctx.thorough else ['client', 'reactor']), b),
         # v2: the growth task is queued (one request in flight >= max_requests)
         ('v2-grow-vs-shutdown', dict(leg, stage=[('req',)], threads=['worker', 'shutdown', 'reactor']), b),
         # v2: two connections, a borrow overlaps the return that trashes one of them and the shutdown
@@ -78,7 +80,7 @@ def s_configs(ctx):
         # v2 (thresholds 1/2): a set-aside connection's last request is answered while shutdown() walks over the trash
         ('v2-trash-return-vs-shutdown', dict(leg, min_reqs=1, max_reqs=2, max_in_flight=3,
                                              stage=[('req',), ('req',), ('task', 0, 'ok'), ('req',), ('resp', 0)],
-                                             threads=['reactor', 'shutdown']), b + 1),
+                                             threads=['reactor', 'shutdown']), b + 1 if ctx.thorough else b),
     ]
 
 
